@@ -117,15 +117,31 @@ impl<State: ExchangeData> IterationStateHandler<State> {
             // finished and empty. This means that no calls to `.get` are possible until one Replay
             // block chooses to start. This cannot happen due to the barrier below and the state
             // lock.
+            #[cfg(feature = "verif")]
+            crate::verif::emit(|| {
+                serde_json::json!({"ev": "set_state", "at": crate::verif::coord_str(self.coord),
+                    "lock": std::sync::Arc::as_ptr(&self.state_lock) as usize,
+                    "state": serde_json::to_value(&new_state).unwrap_or_default()})
+            });
             unsafe {
                 self.state_ref.set(new_state);
             }
         }
+        #[cfg(feature = "verif")]
+        crate::verif::emit(|| {
+            serde_json::json!({"ev": "barrier", "at": crate::verif::coord_str(self.coord),
+                "lock": std::sync::Arc::as_ptr(&self.state_lock) as usize, "phase": "arrive"})
+        });
         // make sure that the state is set before any replica on this host is able to start again,
         // reading the old state
         self.state_barrier
             .get_or_create(|| Barrier::new(self.num_local_replicas))
             .wait();
+        #[cfg(feature = "verif")]
+        crate::verif::emit(|| {
+            serde_json::json!({"ev": "barrier", "at": crate::verif::coord_str(self.coord),
+                "lock": std::sync::Arc::as_ptr(&self.state_lock) as usize, "phase": "leave"})
+        });
 
         if self.is_local_leader {
             // now the state has been set, accessing it is safe again
